@@ -191,11 +191,23 @@ def k_write(run, case, rng, work):
     mode = "se3" if rng.random() < .5 else "xyzq"
     tr = C06.make_traj(rng, n, ["random17", "ordinary", "epoch", "integers"][rng.integers(4)], mode,
                        stamped=(fmt == "tum"))
+    dt = "float64"
+    if rng.random() < .3:
+        # positions as an API user may hand them over: integer way-point grid or float32
+        from evo.core.trajectory import PosePath3D, PoseTrajectory3D
+        dt = "int" if rng.random() < .5 else "float32"
+        q = unit_quats(rng, n)
+        p = (rng.integers(-1000, 1000, size=(n, 3)).tolist() if dt == "int" else
+             (rng.normal(size=(n, 3)) * 100).astype(np.float32))
+        t = 1.3e9 + np.cumsum(rng.random(n) + 0.01)
+        tr = PoseTrajectory3D(p, q, t) if fmt == "tum" else PosePath3D(p, q)
+        mode = "xyzq"
     given = gen.read_views(tr)
     buf = io.StringIO()
     (fi.write_tum_trajectory_file if fmt == "tum" else fi.write_kitti_poses_file)(buf, tr)
     text = buf.getvalue()
-    run.seen(case, core.digest(text), cls=["write " + fmt], sample={"fmt": fmt, "first_line": text.splitlines()[0][:200]})
+    run.seen(case, core.digest(text), cls=["write " + fmt, "written positions dtype:" + dt],
+             sample={"fmt": fmt, "dtype": dt, "first_line": text.splitlines()[0][:200]})
     try:
         if fmt == "tum":
             t, p, R, q = rm.parse_tum(text)
